@@ -373,10 +373,12 @@ theorem C03_honest_wins_counterexample_commits_false :
     (tipRound Cex.H Cex.s (Cex.net 0)).1.bans = [(2, 3)] := by decide
 
 
-/-- Clause (d) under the negation of the two recorded shapes: in a round that
+/-- Clause (d) under the negation of the recorded shape (since the repair of
+`zero-hash-sentinel` a peer advertising the all-zero hash is an ordinary liar
+and is covered here): in a round that
 is NOT of the F12 shape (`shapeEarlyReturn`: at one index a responding peer is
-silent / self-inconsistent AND another is a self-consistent liar) and in which
-nobody advertises the all-zero hash (`noZero`), whenever an honest peer answers
+silent / self-inconsistent AND another is a self-consistent liar), whenever an
+honest peer answers
 and every false value is provably inconsistent, the batch committed is the
 honest one, every liar is banned and no honest peer is — for every hash
 function, every state satisfying the invariant (block ids distinct), every
@@ -384,10 +386,9 @@ number of peers, every assignment of answers / served filters / verification
 results, every order of the peer map and every pick. -/
 theorem C03_honest_wins_partial (H : FHash → Hdr → Hdr) (s : St) (net : Net) (truth : Nat → FHash)
     (hi : Inv H s) (hnd : s.blocks.Nodup)
-    (hshape : (roundOf s net truth).shapeEarlyReturn = false)
-    (hzero : (roundOf s net truth).noZero = true) :
+    (hshape : (roundOf s net truth).shapeEarlyReturn = false) :
     HonestWinsAt H s net truth :=
-  fun hahead hhyp => honest_wins_round H s net truth hi hnd hahead hhyp hshape hzero
+  fun hahead hhyp => honest_wins_round H s net truth hi hnd hahead hhyp hshape
 
 namespace ExPartial
 /-- peer 1 honest; peer 2 advertises a false hash but serves the true filter
@@ -410,37 +411,37 @@ end ExPartial
 three kinds present, and its conclusion is what the model computes -/
 example : (roundOf ExPartial.s (ExPartial.net 0) ExPartial.truth).hyp = true ∧
     (roundOf ExPartial.s (ExPartial.net 0) ExPartial.truth).shapeEarlyReturn = false ∧
-    (roundOf ExPartial.s (ExPartial.net 0) ExPartial.truth).noZero = true ∧
     ExPartial.s.blocks.Nodup ∧
     (tipRound Cex.H ExPartial.s (ExPartial.net 0)).1.fstore = [1, 107, 10708] ∧
     (tipRound Cex.H ExPartial.s (ExPartial.net 0)).1.bans = [(3, 3), (2, 3), (4, 3)] := by decide
 
-namespace CexZero
-/-- peer 1 honest; peer 2 advertises the all-zero filter hash and serves nothing.
-The map iteration meets peer 2 first in the mismatch test (the zero hash is
-taken for "no value yet", so no mismatch is seen) and in the final pick. -/
-def net : Net :=
+namespace ExZero
+/-- peer 1 honest; peer 2 advertises the all-zero filter hash and serves nothing;
+the map iteration meets peer 2 first (the order in which the old code lost the
+mismatch) -/
+def net (pick : Nat) : Net :=
   { peers := [2, 1]
     resps := fun p => if p = 2 then [⟨true, 1, [0]⟩] else [⟨true, 1, [7]⟩]
     served := fun p _ => if p = 1 then some 7 else none
     verify := fun _ _ => .ok 0
     getBlock := fun _ => true
-    pick := 0 }
-end CexZero
+    pick := pick }
+end ExZero
 
-/-- second, independent counterexample to clause (d) (finding
-`zero-hash-sentinel`): `checkForCFHeaderMismatch` uses the all-zero hash as
-"unset", so a peer advertising it is not seen to disagree when the map iteration
-meets it first; it is not banned and `H 0 tip` can be committed.  Not of the F12
-shape. -/
-theorem C03_honest_wins_counterexample_zero :
-    ¬ HonestWinsAt Cex.H Cex.s CexZero.net Cex.truth ∧
-    (roundOf Cex.s CexZero.net Cex.truth).hyp = true ∧
-    (roundOf Cex.s CexZero.net Cex.truth).shapeEarlyReturn = false ∧
-    (roundOf Cex.s CexZero.net Cex.truth).noZero = false ∧
-    (tipRound Cex.H Cex.s CexZero.net).1.fstore = [1, 100] ∧
-    (tipRound Cex.H Cex.s CexZero.net).1.bans = [] := by
-  unfold HonestWinsAt
+/-- the instance that was the counterexample of the repaired finding
+`zero-hash-sentinel` (a peer advertising the all-zero filter hash, met first by
+the map iteration) now satisfies the honest-wins clause — it is an instance of
+`C03_honest_wins_partial` — and the model computes: mismatch seen, the zero-hash
+peer banned, the honest header committed, whichever peer the pick meets -/
+theorem C03_zero_hash_liar_caught :
+    HonestWinsAt Cex.H Cex.s (ExZero.net 0) Cex.truth ∧
+    (roundOf Cex.s (ExZero.net 0) Cex.truth).hyp = true ∧
+    (roundOf Cex.s (ExZero.net 0) Cex.truth).noZero = false ∧
+    (tipRound Cex.H Cex.s (ExZero.net 0)).1.fstore = [1, 107] ∧
+    (tipRound Cex.H Cex.s (ExZero.net 0)).1.bans = [(2, 3)] ∧
+    (tipRound Cex.H Cex.s (ExZero.net 1)).1.fstore = [1, 107] := by
+  refine ⟨C03_honest_wins_partial Cex.H Cex.s (ExZero.net 0) Cex.truth
+    ⟨rfl, ⟨[1], rfl⟩, by decide, True.intro⟩ (by decide) (by decide), ?_⟩
   decide
 
 end Neutrino.CFHeaders
